@@ -75,7 +75,50 @@ fn long_history<T: Acc>(n: usize, s: &mut Sink) {
     T::check_oneshot(&model, &|| case("one-shot ci"), s);
 }
 
+/// bulk entry points at block-boundary sizes: 2^k - 1, 2^k, 2^k + 1 observations in one
+/// from_iter / one extend (and split over two extends at the boundary)
+fn boundary_sizes<T: Acc>(max_pow: u32, s: &mut Sink) {
+    let a = T::alphabet();
+    for k in 1..=max_pow {
+        for n in [(1usize << k) - 1, 1 << k, (1 << k) + 1] {
+            if n < 2 {
+                continue;
+            }
+            let model: Vec<vcheck::models::Obs> = (0..n).map(|i| a[(i * 5 + i / 7) % a.len()]).collect();
+            let case = |shape: &str| json!({"check":"boundary","type":T::NAME,"n":n,"shape":shape});
+            s.evals += 3;
+            s.calls += 3;
+            let r1 = T::from_iter(&model);
+            let mut r2 = T::new();
+            r2.extend(&model);
+            let mut r3 = T::new();
+            r3.extend(&model[..n / 2]);
+            r3.extend(&model[n / 2..]);
+            // cheap observers first (count and the first two queries), full invariant on r1
+            let (q1, q2, q3) = (r1.queries(), r2.queries(), r3.queries());
+            if q1[0] != q2[0] || q1[0] != q3[0] {
+                s.violation(format!("{}/bulk-entry-points-disagree-on-count", T::NAME), format!("n={n}: from_iter {:?}, extend {:?}, extend x2 {:?}", q1[0], q2[0], q3[0]), case("counts"));
+            }
+            r1.check(&model, &|| case("from_iter"), s);
+            r2.check(&model, &|| case("extend"), s);
+            s.outcome(&(T::NAME, "boundary", k));
+        }
+    }
+}
+
 fn replay_case(case: &Value, s: &mut Sink) {
+    if case["check"] == "boundary" {
+        match case["type"].as_str().unwrap_or("") {
+            "Arithmetic<f64>" => boundary_sizes::<Arithmetic<f64>>(18, s),
+            "Arithmetic<f32>" => boundary_sizes::<Arithmetic<f32>>(18, s),
+            "Geometric<f64>" => boundary_sizes::<Geometric<f64>>(17, s),
+            "Harmonic<f32>" => boundary_sizes::<Harmonic<f32>>(17, s),
+            "Paired<f64>" => boundary_sizes::<Paired<f64>>(17, s),
+            "Unpaired<f64>" => boundary_sizes::<Unpaired<f64>>(17, s),
+            _ => boundary_sizes::<proportion::Stats>(18, s),
+        }
+        return;
+    }
     if case["check"] == "long" {
         let n = case["n"].as_u64().unwrap() as usize;
         match case["type"].as_str().unwrap_or("") {
@@ -154,6 +197,13 @@ fn main() {
             Box::new(|s| long_history::<Unpaired<f32>>(100_000, s)),
             Box::new(|s| long_history::<proportion::Stats>(100_000, s)),
             Box::new(|s| long_history::<quantile::Stats>(100_000, s)),
+            Box::new(|s| boundary_sizes::<Arithmetic<f64>>(18, s)),
+            Box::new(|s| boundary_sizes::<Arithmetic<f32>>(18, s)),
+            Box::new(|s| boundary_sizes::<Geometric<f64>>(17, s)),
+            Box::new(|s| boundary_sizes::<Harmonic<f32>>(17, s)),
+            Box::new(|s| boundary_sizes::<Paired<f64>>(17, s)),
+            Box::new(|s| boundary_sizes::<Unpaired<f64>>(17, s)),
+            Box::new(|s| boundary_sizes::<proportion::Stats>(18, s)),
         ];
         let r = jobs
             .par_iter()
@@ -177,7 +227,7 @@ fn main() {
     s.sample(json!({"type":"Arithmetic<f64>","history":["FromIter([0.1, 1048576.0])","New","Append(1, -2.5)","AddAssign(1, 0)"],"invariant":"register 1: count 3; mean/ci equal the exact statistics and the batch from_iter of {-2.5, 0.1, 1048576} within tolerance; queries pure"}));
     s.sample(json!({"type":"Unpaired<f64>","history":["FromIter([A(0.1), B(1048576.0)])","Clone(0)","Add(0, 1)"],"invariant":"side a holds exactly the A observations, side b the B observations"}));
     s.sample(json!({"type":"proportion::Stats","history":["Extend(0,[true,false])","AddAssign(0,0)"],"invariant":"== Stats::new(4, 2)"}));
-    rep.rule = format!("BFS over pools of <=3 real registers, <=6 observations per register, depth {} ({} for proportion/quantile Stats), for Arithmetic<f64,f32>, Geometric, Harmonic, Paired, Unpaired{}, proportion::Stats, quantile::Stats; actions New, Append(r,v), Extend(r,chunk), FromIter(chunk), Clone(r), Add(i,j), AddAssign(i,j) incl. i=j, chunks = empty, singletons, all pairs over 3 values, one triple; every new state: each register against its model (count, mean, CIs vs exact statistics and vs one batch from_iter of the sorted model), queries issued twice and Debug rendering unchanged; plus long histories (2e4..2e5 observations per type delivered by from_iter / one by one / chunked extend / left fold / right fold / balanced reduction of 100-element registers, and the one-shot ci entry points); distinct by (type, model size, observers, non-zero compensation)", tier.pick(4, 5), tier.pick(5, 8), tier.pick("", " (also f32)"));
+    rep.rule = format!("BFS over pools of <=3 real registers, <=6 observations per register, depth {} ({} for proportion/quantile Stats), for Arithmetic<f64,f32>, Geometric, Harmonic, Paired, Unpaired{}, proportion::Stats, quantile::Stats; actions New, Append(r,v), Extend(r,chunk), FromIter(chunk), Clone(r), Add(i,j), AddAssign(i,j) incl. i=j, chunks = empty, singletons, all pairs over 3 values, one triple; every new state: each register against its model (count, mean, CIs vs exact statistics and vs one batch from_iter of the sorted model), queries issued twice and Debug rendering unchanged; plus long histories (2e4..2e5 observations per type delivered by from_iter / one by one / chunked extend / left fold / right fold / balanced reduction of 100-element registers, and the one-shot ci entry points) and the bulk entry points (from_iter, extend, extend x2) at every size 2^k-1, 2^k, 2^k+1 up to 2^17..2^18; distinct by (type, model size, observers, non-zero compensation)", tier.pick(4, 5), tier.pick(5, 8), tier.pick("", " (also f32)"));
     rep.assume("interleavings inside a stats-ci call are not explored: the crate has no shared mutable state (forbid(unsafe_code), no interior mutability, one immutable lazy_static); schedules are explored at the caller level by the loom harness");
     rep.assume("the Debug rendering (all private fields, round-trip float formatting) is the injective state key");
     // (only meaningful while the Debug rendering exposes the compensation term by that name)
